@@ -849,3 +849,21 @@ LEVEL_NOTE = ("Trusted: Coq kernel; extraction + OCaml glue; harness; the theore
               "the checked correspondence (exhaustive short histories + sampled long ones, not all).  lh_table_resize called directly "
               "with a size that makes the refill itself grow (nested resize) is outside the model (reported as OUT-nested); "
               "the random seed of lh_char_hash is whatever the process draws (the theorems cover every seed).")
+
+
+# ---- source -> Gallina translator for the header constants this model uses (tr/lib_consts.py; LibImplCheck.v)
+LIB_TRANSLATOR = {}
+
+
+def coq_extra():
+    import sys as _sys, os as _os
+    import fw as _fw
+    _sys.path.insert(0, _os.path.join(_fw.VERIF, "tr"))
+    import lib_consts
+    files, info = lib_consts.coq_extra_for(_fw)
+    LIB_TRANSLATOR.update(info)
+    return files
+
+
+def extra_coverage():
+    return dict(lib_translator=dict(LIB_TRANSLATOR))
